@@ -31,6 +31,15 @@ package ecdsa
 //@   ensures ptval(sig.R) == old(ptval(sig.R))
 //@   loop 1: invariant s != nil && fresh(s)
 
+// This party's share of the online signature (C01): sigma_i = k_i * m + r * chi_i with m = fromhash(hash), r = x(R);
+// the presignature itself is left as it was.
+//@ func (*PreSignature).SignatureShare
+//@   nopanic[C05]
+//@   requires sig != nil && sig.R != nil && sig.KShare != nil && sig.ChiShare != nil
+//@   allocates
+//@   ensures[C01] result != nil && fresh(result) && scval(result) == s_add(s_mul(fromhash(bval(hash)), old(scval(sig.KShare))), s_mul(xcoord(old(ptval(sig.R))), old(scval(sig.ChiShare))))
+//@   ensures[C01,C11] scval(sig.KShare) == old(scval(sig.KShare)) && scval(sig.ChiShare) == old(scval(sig.ChiShare)) && ptval(sig.R) == old(ptval(sig.R))
+
 // Per-share check of the online phase (C04): a party is named only if it sent a share and that share fails
 //   sigma_j * R == m * Rbar_j + r * S_j      (m = fromhash(hash), r = x(R))
 // against the stored presignature, or the presignature holds no entry for it; nobody outside the map of shares is named.
